@@ -85,6 +85,7 @@ PROPS = {
     "C11": [S("C11")],
     "C12": [S("C12")],
     "C15": [S("C15")],
+    "C19": [M("C19")],
 }
 
 
